@@ -53,6 +53,12 @@ CLAIMED = {
     'C18': dict(technique='bounded symbolic execution of the MIR of main over symbolic source bytes: scanner-position invariant at every Scanner::loc() call and shift lemma for layout prefixes as z3 formulas decided per path; reference front end on witnesses; native replay',
                 text='(a) For every input up to the byte bound, each (line, col) the scanner hands out equals the true position of the current character (formula over the symbolic bytes: LF, CR, tab, multi-byte characters); (b) syntax errors are located at the offending character / token (reference front end per path witness); (c) a failing tail preceded by symbolic layout bytes, a comment with arbitrary text, a multi-line string or a continuation break reports every position (diagnostic and stack trace) moved by exactly the displacement of the prefix.',
                 design='§4 C18'),
+    'C08': dict(technique='bounded symbolic execution of the real front end (Lexer MIR, LR driver model, generated parser actions MIR) on operator sequences with symbolic operator selectors; AST compared with the tier-rule reference parser; parenthesisation laws; native evaluation',
+                text='For operand (op operand)^k with every operator position ranging over all 16 binary-operator tokens (k <= 2 exhaustive, k = 3 over a tier-covering subset in quick / all in thorough) and four operand sets incl. negative literals and every postfix form: the AST the generated parser builds (grouping, operator variant, operand order, operator position) equals the tree of the tier rule; wrapping any group in parentheses and re-parsing the minimal print-out give the same tree.',
+                design='§4 C08'),
+    'C09': dict(technique='bounded symbolic execution of the real Lexer (MIR) on pairs of texts that differ only in symbolic layout bytes; token-stream equality decided by z3 per path; native comparison of both texts as scripts',
+                text='A line break (with symbolic spaces / tabs / CRs and comments around it) after each of the 25 continuation tokens lexes as no break, after each of 27 other tokens as `;`; symbolic whitespace, comment and terminator holes at token gaps of repository scripts leave the token stream unchanged; digit strings with and without `_` and an ASCII character vs its \\xHH escape give equal payloads (solver-checked terms).',
+                design='§4 C09'),
 }
 NA_REASON = 'check not built yet in this round (DESIGN.md §7 gates); no claim is made'
 checks = []
